@@ -19,7 +19,8 @@ DOC_VERDICTS = ("happy", "LonelyError", "WrongPasswordError", "ServerError", "We
 
 
 def cases(rng, tier):
-    return _guided_cases(rng, tier) + _pair_cases(rng, tier)
+    # ... and on the real connection stack (c14.run_real): closed exactly once, nothing after it, a documented verdict
+    return _guided_cases(rng, tier) + _pair_cases(rng, tier) + c14.real_cases(rng, tier)
 
 
 def _pair_cases(rng, tier):
@@ -136,6 +137,10 @@ evidence_extra = mc.cert_stats
 
 
 def run_case(case):
+    if case.get("kind") == "real":
+        r = c14.run_real(case)
+        keep = [(sg, m) for sg, m in r.violations if sg.startswith(("real:", "verdict:"))]
+        return Result([], [], keep, r.tags, True, info=r.info)
     if case.get("kind") == "pair":
         from . import c18
         r = c18.run_pair(case)
@@ -169,6 +174,9 @@ def explicit(case):
 
 def shrink(case):
     if case.get("kind") == "pair":
+        return
+    if case.get("kind") == "real":
+        yield from c14.shrink(case)
         return
     if case.get("kind") == "trace":
         yield from mc.trace_shrink(case)
